@@ -261,6 +261,27 @@ JudgeLagrange(e) ==
   ELSE R(Len(e.out) = e.m, "length") \cup R(Len(e.out) # e.m \/ AreMuls(e.out, LagExps(e)), "value")
        \cup KeysSame(e)
 
+(* ---- MpcSetup.Seal (extension of the setup-transcript clause) --------------------------- *)
+\* c = the first non-zero hash_to_field(SHA-256(serialised setup) || beacon || '='^k, "KZG Setup", 1); the sealed string is
+\* G1[i] -> [c^i] G1[i], [tau]G2 -> [c][tau]G2, everything else unchanged. Works on points, so the trapdoor need not be known.
+LOCAL H2 == INSTANCE H2C
+DstKZG == <<75, 90, 71, 32, 83, 101, 116, 117, 112>>      \* "KZG Setup"
+SealTry(e, k) == H2!HashToField(TrR, RPar.bits, SHA256(e.wire) \o e.beacon \o [i \in 1..k |-> 61], DstKZG, 1)[1]
+SealC(e) == IF SealTry(e, 0) # Zero THEN SealTry(e, 0) ELSE SealTry(e, 1)
+SealPointsOK(s) == /\ \A i \in 1..Len(s.g1s) : P1Canon(s.g1s[i])
+                   /\ P1Canon(s.vkg1) /\ P2Canon(s.g2[1]) /\ P2Canon(s.g2[2])
+JudgeSeal(e) ==
+  IF Panicked(e) THEN {"panic"}
+  ELSE IF ~SealPointsOK(e.before) THEN {"badinput"}
+  ELSE IF ~SealPointsOK(e.after) THEN {"noncanonical"}
+  ELSE LET c == SealC(e) IN
+       R(Len(e.after.g1s) = Len(e.before.g1s), "size")
+       \cup R(Len(e.after.g1s) # Len(e.before.g1s) \/
+              \A i \in 1..Len(e.before.g1s) :
+                 P1(e.after.g1s[i]) = WMulNat(Cv1, PowMod(c, FromInt(i - 1), TrR), P1(e.before.g1s[i])), "sealed-g1")
+       \cup R(P2(e.after.g2[2]) = WMulNat(Cv2, c, P2(e.before.g2[2])), "sealed-g2")
+       \cup R(e.after.vkg1 = e.before.vkg1 /\ e.after.g2[1] = e.before.g2[1], "sealed-generators")
+
 NeedsSRS == {"ToLagrangeG1", "Commit", "Open", "Verify", "BatchOpenSinglePoint", "FoldProof", "BatchVerifySinglePoint", "BatchVerifyMultiPoints"}
 
 Judge(e) ==
@@ -275,6 +296,7 @@ Judge(e) ==
          [] e.op = "BatchVerifyMultiPoints" -> JudgeMulti(e)
          [] e.op = "RoundTrip" -> JudgeRoundTrip(e)
          [] e.op = "ToLagrangeG1" -> JudgeLagrange(e)
+         [] e.op = "Seal" -> JudgeSeal(e)
          [] OTHER -> {"unknown-op"}
 
 \* exponents whose points the judgement of e needs (inputs the harness declares, outputs the machine prescribes)
